@@ -50,7 +50,7 @@ StdTH == {TH(m, p, h, b, f) : m \in {"TRACE", "GET"}, p \in {"/", "/a<b>&'\"c"},
 \* probes: W = simple-valued witness of a pattern, A = any other path
 W(p, wps) == [path |-> Subst(Parse(p).atoms, wps), wit |-> p, wps |-> wps]
 A(path)   == [path |-> path, wit |-> "", wps |-> <<>>]
-StdIcpt   == [digit |-> "digit", word |-> "word", any |-> "any"]
+StdIcpt   == [digit |-> "digit", word |-> "word", any |-> "any", even |-> "even"]
 Cfg(trace) == [name |-> "r", trace |-> trace, icpt |-> StdIcpt, domain |-> ""]
 CfgD(dom)  == [name |-> "r", trace |-> FALSE, icpt |-> StdIcpt, domain |-> dom]
 
